@@ -1,6 +1,6 @@
 (* Compiled on every run of the C05 check: pins each statement and prints its assumptions. *)
 From Coq Require Import List ZArith Bool.
-From SV Require Import c05.Model_C05 c05.Proofs_C05 c05.Proofs_C05_inv c05.Proofs_C05_step c05.Proofs_C05_gen gen.Gen_C05 c05.Properties_C05.
+From SV Require Import c05.Model_C05 c05.Proofs_C05 c05.Proofs_C05_inv c05.Proofs_C05_step c05.Proofs_C05_step2 c05.Proofs_C05_reclaim c05.Proofs_C05_gen gen.Gen_C05 c05.Properties_C05.
 Import ListNotations.
 
 Check (C05_pack_roundtrip : forall w, in_range VALUE_BITS w ->
@@ -11,13 +11,49 @@ Check (C05_init_Inv : forall cr regs progs, (cr < List.length progs)%nat -> Inv 
 Check (C05_Inv_sound : forall s, Inv s ->
   uaf s = O /\ exclbad s = O /\ (destr s <= 1)%nat /\ (destr s = 1%nat <-> freed s = true) /\
   (freed s = true -> sumh (thrs s) = O /\ qs s = [])).
-Check (C05_step_preserves_Inv_partial : forall t s s' x,
-  Inv s -> nth_error (thrs s) t = Some x -> covered (pcv x) = true ->
-  step fixed_cfg t s = Some s' -> Inv s').
+Check (C05_step_preserves_Inv : forall t s s', Inv s -> step fixed_cfg t s = Some s' -> Inv s').
+Check (C05_schedule_preserves_Inv : forall cr regs progs sched, (cr < List.length progs)%nat ->
+  Inv (run fixed_cfg sched (init cr regs progs))).
+Check (C05_no_use_after_free : forall cr regs progs sched, (cr < List.length progs)%nat ->
+  uaf (run repo_cfg sched (init cr regs progs)) = O).
+Check (C05_destroyed_once : forall cr regs progs sched, (cr < List.length progs)%nat ->
+  let s := run repo_cfg sched (init cr regs progs) in
+  (destr s <= 1)%nat /\ (destr s = 1%nat <-> freed s = true) /\
+  (freed s = true -> sumh (thrs s) = O /\ qs s = [])).
+Check (C05_exclusive_sound : forall cr regs progs sched, (cr < List.length progs)%nat ->
+  let s := run repo_cfg sched (init cr regs progs) in
+  exclbad s = O /\
+  (forall t x s', nth_error (thrs s) t = Some x ->
+     match pcv x with UnqRdOwner | UnqNoneLoad | UnqOwnRdBiased | UnqOwnLoad
+                  | UmRdOwner | UmNoneLoad | UmOwnRdBiased | UmOwnLoad => True | _ => False end ->
+     step repo_cfg t s = Some s' ->
+     owner s' = owner s /\ biased s' = biased s /\ shared s' = shared s /\ freed s' = freed s /\
+     destr s' = destr s /\ qs s' = qs s /\ sumh (thrs s') = sumh (thrs s))).
+Check (C05_reclaim : forall cr regs progs sched, (cr < List.length progs)%nat ->
+  let s := run repo_cfg sched (init cr regs progs) in
+  quiescent s -> sumh (thrs s) = O -> qs s = [] -> freed s = true /\ destr s = 1%nat).
+Check (C05_exclusive_monitor_spec : forall s, exclbad (excl_check s) = exclbad s <-> sumh (thrs s) = 1%nat).
+Check (C05_has_unique_ref_refuted : let s := run original_cfg f1_sched (init 0%nat [0; 1]%nat f1_progs) in
+  freed s = true /\ (0 < sumh (thrs s))%nat /\ (0 < uaf s)%nat).
+Check (C05_freed_while_queued_refuted : let s := run f1_fixed_cfg f17_sched (init 0%nat [0; 1]%nat f17_progs) in
+  (0 < uaf s)%nat /\ destr s = 2%nat).
+Check (C05_witnesses_repaired : (let s := run fixed_cfg f1_sched (init 0%nat [0; 1]%nat f1_progs) in
+   freed s = false /\ sumh (thrs s) = 1%nat /\ uaf s = 0%nat) /\
+  (let s := run fixed_cfg f17_sched (init 0%nat [0; 1]%nat f17_progs) in
+   uaf s = 0%nat /\ destr s = 1%nat /\ freed s = true /\ sumh (thrs s) = 0%nat)).
 
 Print Assumptions C05_pack_roundtrip.
 Print Assumptions C05_assert_range.
 Print Assumptions C05_repo_cfg_fixed.
 Print Assumptions C05_init_Inv.
 Print Assumptions C05_Inv_sound.
-Print Assumptions C05_step_preserves_Inv_partial.
+Print Assumptions C05_step_preserves_Inv.
+Print Assumptions C05_schedule_preserves_Inv.
+Print Assumptions C05_no_use_after_free.
+Print Assumptions C05_destroyed_once.
+Print Assumptions C05_exclusive_sound.
+Print Assumptions C05_reclaim.
+Print Assumptions C05_exclusive_monitor_spec.
+Print Assumptions C05_has_unique_ref_refuted.
+Print Assumptions C05_freed_while_queued_refuted.
+Print Assumptions C05_witnesses_repaired.
